@@ -545,6 +545,12 @@ C08_Footprint_Step ==
          /\ RowsSameExcept("bal", LAMBDA r : r.bk = BatchByDenom(st, m.batch_denom).key)
          /\ RowsSameExcept("supply", LAMBDA r : r.bk = BatchByDenom(st, m.batch_denom).key)
     [] T = "CreateProject" -> OnlyChanged({"projects", "pseq", "seq"}) /\ st.projects \subseteq st'.projects
+    \* creating a class changes no existing class and no existing class's issuer list (seeded change C08-j files
+    \* the new issuers under the per-credit-type sequence number, i.e. under another class's key)
+    [] T = "CreateClass" ->
+         /\ OnlyChanged({"classes", "issuers", "cseq", "seq", "coins", "csupply"})
+         /\ st.classes \subseteq st'.classes /\ st.issuers \subseteq st'.issuers
+         /\ \A r \in st'.issuers \ st.issuers : \A c \in st.classes : r.ck # c.key
     [] T = "CreateBatch" ->
          /\ OnlyChanged({"batches", "bseq", "seq", "bal", "supply", "origintx", "contracts"})
          /\ st.batches \subseteq st'.batches /\ st.bal \subseteq st'.bal
@@ -596,6 +602,11 @@ C08_Effect_Step ==
   IN
   CASE T = "UpdateClassAdmin"    -> HasClassId(st', m.class_id) /\ ClassById(st', m.class_id).admin = Acct(m.new_admin)
     [] T = "UpdateClassMetadata" -> HasClassId(st', m.class_id) /\ ClassById(st', m.class_id).meta = m.meta
+    [] T = "CreateClass" ->
+         /\ "class_id" \in DOMAIN ev'.resp /\ HasClassId(st', ev'.resp.class_id) /\ ~HasClassId(st, ev'.resp.class_id)
+         /\ LET c == ClassById(st', ev'.resp.class_id) IN
+            /\ c.admin = Acct(m.admin) /\ c.ct = m.ct /\ c.meta = m.meta
+            /\ {r.a : r \in {x \in st'.issuers : x.ck = c.key}} = {Acct(x) : x \in RangeOf(m.issuers)}
     [] T = "UpdateClassIssuers"  ->
          LET ck == ClassById(st, m.class_id).key IN
          {r.a : r \in {x \in st'.issuers : x.ck = ck}}
